@@ -55,6 +55,7 @@ IMPL_ITEMS = {
     "attr": "#[inline] /** doc */ fn i{n}(deps: &impl ::core::any::Any) -> u32 {{ {n} }}",
     "const": "const C{n}: u8 = {{ 1 }};",
     "bodyless": "fn d{n}(deps: &impl ::core::any::Any);",
+    "pubbodyless": "#[cfg(any())] pub(crate) fn e{n}(deps: &impl ::core::any::Any);",
 }
 
 
@@ -92,6 +93,18 @@ def impl_states(maxlen):
     return states, transitions * 2
 
 
+STAMPED = {
+    # macro_rules fragments reach the macro as invisible (None-delimited) groups: they must pass through untouched
+    "mod_const": "macro_rules! mk { ($e:expr, $t:ty, $b:block) => { #[::entrait::entrait(pub Tr)] pub mod m { pub const K: $t = $e * 2; pub static S: $t = $e; pub fn a(deps: &impl ::core::any::Any) -> $t $b pub fn b(deps: &impl ::core::any::Any) -> $t { $e } } } }\n    mk!(1 + 2, u32, { 7 });",
+    "impl_const": "pub struct X; macro_rules! mk { ($e:expr, $t:ty) => { #[::entrait::entrait] impl TrImpl for X { const K: $t = $e * 2; fn a(deps: &impl ::core::any::Any) -> $t { $e } } } }\n    mk!(1 + 2, u32);",
+    "fn_body": "macro_rules! mk { ($e:expr, $t:ty, $p:pat) => { #[::entrait::entrait(Tr)] pub fn f(deps: &impl ::core::any::Any, $p: $t) -> $t { $e * 2 } } }\n    mk!(1 + 2, u32, x);",
+}
+
+
+def stamped_states():
+    return [dict(key="st_" + k, mode="stamped", which=k) for k in STAMPED], len(STAMPED)
+
+
 def enumerate_states(tier):
     if tier == "thorough":
         fdev, mlen, ilen = 3, 3, 4
@@ -100,6 +113,8 @@ def enumerate_states(tier):
     fs, ft = fn_states(fdev)
     ms, mt = mod_states(mlen)
     is_, it = impl_states(ilen)
+    ss, st = stamped_states()
+    is_, it = is_ + ss, it + st
     return fs + ms + is_, ft + mt + it, dict(fn_deviations=fdev, mod_item_word_len=mlen, impl_item_word_len=ilen,
                                              fn_states=len(fs), mod_states=len(ms), impl_states=len(is_))
 
@@ -121,6 +136,8 @@ def render(s):
         gp, wh = dv["generics"]
         params = "deps: &impl ::core::any::Any" + (", " + dv["params"] if dv["params"] else "")
         L.append("    %s %s fn f%s(%s) %s %s %s" % (dv["vis"].replace("KEY", key), dv["qual"], gp, params, dv["ret"], wh, dv["body"]))
+    elif s["mode"] == "stamped":
+        L.append("    " + STAMPED[s["which"]])
     elif s["mode"] == "mod":
         L.append("    /// module doc")
         L.append("    #[::entrait::entrait(pub Tr)]")
@@ -145,9 +162,42 @@ def render(s):
 # oracle
 # ---------------------------------------------------------------------------------------------
 
+def flat_all(tt):
+    """Remove invisible (None-delimited) groups, recursively (used for syn-reprinted regions only)."""
+    out = []
+    for t in tt:
+        if t[0] == "g" and t[1] == "":
+            out.extend(flat_all(t[2]))
+        elif t[0] == "g" and t[1] != "{":
+            out.append(["g", t[1], flat_all(t[2])])
+        else:
+            out.append(t)
+    return out
+
+
+def flatten_signatures(tt):
+    """syn looks through invisible groups when it parses a signature and does not re-emit them: between `fn` and the
+    body (or `;`) they are not compared.  Everywhere else (bodies, opaque items) they are."""
+    out, in_sig = [], False
+    for t in tt:
+        if t[0] == "i" and t[1] == "fn":
+            in_sig = True
+            out.append(t)
+        elif in_sig and ((t[0] == "g" and t[1] == "{") or (t[0] == "p" and t[1] == ";")):
+            in_sig = False
+            out.append(t)
+        elif in_sig:
+            out.extend(flat_all([t]))
+        else:
+            out.append(t)
+    return out
+
+
 def norm(tt, strict_braces=True, top=True):
     """Comparable form: spacing kept only inside brace groups (opaque pass-through regions)."""
     out = []
+    if top:
+        tt = flatten_signatures(tt)
     for t in tt:
         if t[0] == "p":
             out.append(("p", t[1]))
@@ -159,6 +209,13 @@ def norm(tt, strict_braces=True, top=True):
         else:
             out.append((t[0], t[1]))
     return tuple(out)
+
+
+def walk(tt):
+    for t in tt:
+        yield t
+        if t[0] == "g":
+            yield from walk(t[2])
 
 
 def first_diff(a, b):
@@ -211,6 +268,12 @@ def check_state(s, res, parsed):
     if "panic" in r:
         return [("macro-panic", r["panic"])]
     it, ot = r["input_tt"], r["output_tt"]
+    if s["mode"] == "stamped":
+        # every token of the input - invisible groups included - must reappear: fn -> prefix; mod/impl -> body prefix / equal
+        kind = {"mod_const": "mod", "impl_const": "impl", "fn_body": "fn"}[s["which"]]
+        if not any(t[0] == "g" and t[1] == "" for t in walk(it)):
+            return [("stamped-input-has-no-invisible-group", "the scaffold no longer exercises None-delimited groups")]
+        return check_state(dict(s, mode=kind, items=[], dev={}), res, parsed)
     if s["mode"] == "fn":
         a, b = norm(it), norm(ot)
         if b[:len(a)] != a:
@@ -285,6 +348,8 @@ def classify_fn_diff(a, b, i):
 
 def tags_of(s):
     t = {"mode:" + s["mode"]}
+    if s["mode"] == "stamped":
+        return t | {"stamped:" + s["which"]}
     if s["mode"] == "fn":
         for d, c in s["dev"].items():
             t.add("%s:%d" % (d, c))
@@ -305,7 +370,7 @@ def evaluate(states, report, tier):
     # residual parsing requests for mod / impl states
     reqs, where = [], []
     for s in states:
-        if s["mode"] == "fn":
+        if s["mode"] == "fn" or (s["mode"] == "stamped" and s["which"] == "fn_body"):
             continue
         recs = [r for r in results[s["key"]].records if "output_tt" in r and r["attr"].strip() in ("pub Tr", "", "ref")]
         if len(recs) != 1:
@@ -315,7 +380,7 @@ def evaluate(states, report, tier):
         go = next((i for i, t in enumerate(ot) if t[0] == "g" and t[1] == "{"), None)
         if gi is None or go is None:
             continue
-        if s["mode"] == "mod":
+        if s["mode"] == "mod" or (s["mode"] == "stamped" and s["which"] == "mod_const"):
             reqs.append(dict(op="file", tt=ot[go][2][len(it[gi][2]):]))
             where.append((s["key"], "inner"))
         reqs.append(dict(op="file", tt=ot[go + 1:]))
